@@ -3,6 +3,7 @@ package main
 // Evaluation of contract expressions to SMT terms in a symbolic state.
 
 import (
+	"sort"
 	"fmt"
 	"go/constant"
 	"go/types"
@@ -1105,14 +1106,18 @@ func (e *Env) call(x ECall) EVal {
 		if !ok {
 			efail("isbound(v, \"method\")")
 		}
+		// (the identity of a bound-method value of M is -fnID(M), see MakeClosure)
 		var alts []Term
-		u.P.mu.Lock()
-		for i, f := range u.P.fnByID {
-			if f.Name() == sv.V+"$bound" {
-				alts = append(alts, Eq(App("clofn", SInt, v.T), IntLit(int64(i+1))))
+		var ms []*ssa.Function
+		for _, f := range u.P.Funcs {
+			if f != nil && f.Name() == sv.V && f.Signature.Recv() != nil && f.Pkg != nil && (e.pkg == nil || f.Pkg.Pkg == e.pkg) {
+				ms = append(ms, f)
 			}
 		}
-		u.P.mu.Unlock()
+		sort.Slice(ms, func(i, j int) bool { return ms[i].String() < ms[j].String() })
+		for _, f := range ms {
+			alts = append(alts, Eq(App("clofn", SInt, v.T), IntLit(int64(-u.P.fnID(f)))))
+		}
 		return EVal{T: Or(alts...)}
 	case "binding":
 		// binding(v, i, "sort") : i-th captured value of closure v (addresses for captured variables)
